@@ -1593,6 +1593,8 @@ def problem_method(I, e, base, attr, args, kws):
         for pid in pids:
             po = heap[pid]
             d, s, c = problem_closure(I, po)
+            # solutions of earlier problems are ordinary inputs here: keep only direct solution marks
+            d = frozenset(x for x in d if not x.startswith(("sol#", "par#")))
             sol = Val(data=d | kwd[0], shp=s | kwd[1], ctrl=c | kwd[2] | I.fr.ctrl[-1])
             for vid in problem_leaves(I, po, ("cvxvar",)):
                 vo = heap[vid]
